@@ -577,12 +577,12 @@ func c39ContentTypes(c *an.Ctx, pkt *types.Package, fns []*ssa.Function, strCons
 			})
 			return ok
 		}
-		if len(an.InfeasibleUnder(fn, isCT, constant.MakeString("\x00no such content type"))) == 0 || fn.Signature.Results().Len() != 2 {
+		if len(an.InfeasibleUnderV(fn, isCT, constant.MakeString("\x00no such content type"))) == 0 || fn.Signature.Results().Len() != 2 {
 			continue
 		}
 		name := an.FuncName(fn)
 		for _, row := range encLits {
-			cut := an.InfeasibleUnder(fn, isCT, constant.MakeString(row.s))
+			cut := an.InfeasibleUnderV(fn, isCT, constant.MakeString(row.s))
 			reach := an.ReachSet(fn, nil, cut, nil)
 			built := map[string]bool{}
 			for _, in := range an.SortedInstrs(reach) {
